@@ -5,6 +5,8 @@ CONSTANTS
   ReadDrops <- MC_Drops
   ReReadKeys <- MC_ReRead2
   InsertNewTagStoresChars = FALSE
+  NonAtomicRead = FALSE
+  QReadBindsDbFirst = FALSE
   ShallowCopy = FALSE
   SrcSteps = 2
   Emit = FALSE
